@@ -51,6 +51,16 @@ CHECKS = {
         "note": "The 'no data races' clause is decided by the Go race detector, not by TLC. Tile fetches are atomic and honest in these configurations. Trusted: goroutine-state polling for quiescence (a wrong quiescence verdict costs drift, not soundness).",
         "technique": TLA + "exhaustive interleaving exploration, TLC-simulated schedules replayed through a gate scheduler into the real client, recorded concurrent runs trace-validated",
     },
+    "C08": {
+        "text": "Model-based: the documented effect of every go.mod / go.work edit operation is a TLA+ operator on keyed collections (ModfileModel!Apply). TLC enumerates initial layouts x operations (singles on every layout, all ordered pairs on mixed layouts, simulated sequences up to 6) with the model state after each prefix; each is replayed into modfile (render, parse, apply, Cleanup, Format, strict re-parse) and compared as multisets with comment identities of untouched entries; random sessions of 3-15 operations are replayed through the model by TLC (ModfileModelTrace).",
+        "note": "Trusted: the transcription of the documented operation semantics, the layout renderer, the small argument vocabulary. Directive order inside a file is not compared (keyed collections). A rationale is compared by containment (collapse of a commented block may add the block's comment).",
+        "technique": TLA + "operation model, spec-generated sessions replayed into the code and recorded sessions trace-validated",
+    },
+    "C15": {
+        "text": "Same behaviours as C08 with the predicate StructSyntaxAgree: after each prefix + Cleanup the exported fields of File/WorkFile equal, as multisets including indirect flags and rationales, the strict parse of the formatted file, and no list holds a cleared placeholder; evaluated by the harness on generated sessions and by TLC (ModfileModel!Differ) on recorded sessions. Two rationale divergences are recorded as known findings, four defects were repaired.",
+        "note": "Trusted: the projection functions of the harness (exported fields / re-parse). Bounds as C08.",
+        "technique": TLA + "struct-versus-reparse predicate over spec-generated and recorded edit sessions",
+    },
 }
 
 NOT_APPLICABLE = {}
